@@ -239,6 +239,31 @@ Theorem C01_run_fetching_history_pointwise : forall h before s after,
 Proof. exact run_fetching_history_pointwise. Qed.
 Print Assumptions C01_run_fetching_history_pointwise.
 
+(* ---- "The week's expired counter files": the files of a run are grouped by the
+   DATE written in their TimeEnd (the week label), not by the instant or zone;
+   one report per label, built from exactly the files of that label: every
+   expired file is accounted for in the report of its own label, together with
+   every other file of that label, and in no other. *)
+Theorem C01_week_reports_cover : forall gate u cfgver lastweek x l e,
+  In e l ->
+  In (fst e, create_report gate u cfgver (fst e) lastweek x (week_files (fst e) l))
+     (week_reports gate u cfgver lastweek x l) /\
+  In (snd e) (week_files (fst e) l) /\
+  (forall w, In (snd e) (week_files w l) -> exists e', In e' l /\ fst e' = w /\ snd e' = snd e).
+Proof. exact week_reports_cover. Qed.
+Print Assumptions C01_week_reports_cover.
+
+Theorem C01_week_reports_one_per_label : forall gate u cfgver lastweek x l,
+  map fst (week_reports gate u cfgver lastweek x l) = week_labels l /\ NoDup (week_labels l).
+Proof. exact week_reports_one_per_label. Qed.
+Print Assumptions C01_week_reports_one_per_label.
+
+Theorem C01_week_files_same_label : forall l e1 e2,
+  In e1 l -> In e2 l -> fst e1 = fst e2 ->
+  In (snd e1) (week_files (fst e1) l) /\ In (snd e2) (week_files (fst e1) l).
+Proof. exact week_files_same_label. Qed.
+Print Assumptions C01_week_files_same_label.
+
 (* ---- Programs of one weekly report are filtered independently of each
    other and of their order. *)
 Theorem C01_upload_program_independent : forall c x before p after,
